@@ -1,5 +1,326 @@
-/- C16: statements in progress; this placeholder keeps the module buildable. -/
+/-
+C16 — masked fields never influence the snapshot; unmasked fields always do.
+
+The document libraries (gjson/sjson for JSON, goccy/go-yaml for YAML) are PARAMETERS: an
+abstract document type with `get` / `set` and the laws `LensSpec`, passed as a hypothesis.
+go-snaps' own part is the loop of `match.Any` / `match.Custom` / `match.Type`: for each path,
+in order, replace the value at the path by a placeholder (match/any.go:99-125, type.go:103-137),
+then render the document and compare it raw with the stored text.
+-/
 import GoSnaps.Model
+import GoSnaps.Props.C13
+import GoSnaps.Props.C14
 namespace GoSnaps.C16
-theorem handleError_counts (w : World) (msg : Text) : (handleError w msg).1.events.erred = w.events.erred + 1 := rfl
+
+open GoSnaps
+
+/-! ## 1. the contract of the document library -/
+
+/-- `get d p` = what is observable of `d` at path `p` (`none` = the path does not exist);
+`set d p v` = `d` with the value at `p` replaced; `Disj p q` = the two paths address
+non-overlapping parts; `overlap p q v` = what is observed at a path `q` overlapping `p` once
+`p` holds `v` (`some v` for `q = p`; `none` for a path below a scalar; …). -/
+structure LensSpec {Doc Path Val : Type} (get : Doc → Path → Option Val) (set : Doc → Path → Val → Doc)
+    (Disj : Path → Path → Prop) (overlap : Path → Path → Val → Option Val) : Prop where
+  /-- writing an existing path and reading it back -/
+  get_set_same : ∀ (d : Doc) (p : Path) (v : Val), get d p ≠ none → get (set d p v) p = some v
+  /-- writing a path does not change what is observed at a disjoint path -/
+  get_set_other : ∀ (d : Doc) (p q : Path) (v : Val), Disj p q → get (set d p v) q = get d q
+  /-- after writing an existing path, what is observed at an overlapping path depends on the
+      two paths and the written value only — not on what was there before -/
+  get_set_overlap : ∀ (d : Doc) (p q : Path) (v : Val), ¬ Disj p q → get d p ≠ none →
+    get (set d p v) q = overlap p q v
+  /-- a document is determined by its observations on the path universe -/
+  ext : ∀ (a b : Doc), (∀ p, get a p = get b p) → a = b
+
+section Lens
+variable {Doc Path Val : Type} {get : Doc → Path → Option Val} {set : Doc → Path → Val → Doc}
+  {Disj : Path → Path → Prop} {overlap : Path → Path → Val → Option Val}
+
+/-- the loop of `match.Any(paths...)` with a fixed placeholder -/
+def mask (set : Doc → Path → Val → Doc) (M : List Path) (ph : Val) (d : Doc) : Doc :=
+  M.foldl (fun d p => set d p ph) d
+
+/-- the loop of `match.Type` / `match.Custom`: the placeholder is computed from the value found
+at the path (`f`); a missing path is left alone (`ErrOnMissingPath(false)`) -/
+def maskWith (get : Doc → Path → Option Val) (set : Doc → Path → Val → Doc) (f : Val → Val)
+    (M : List Path) (d : Doc) : Doc :=
+  M.foldl (fun d p => match get d p with | some v => set d p (f v) | none => d) d
+
+/-- a path disjoint from every masked path is observed unchanged -/
+theorem get_mask_disj (h : LensSpec get set Disj overlap) (M : List Path) (ph : Val) (d : Doc) (q : Path)
+    (hq : ∀ p ∈ M, Disj p q) : get (mask set M ph d) q = get d q := by
+  induction M generalizing d with
+  | nil => rfl
+  | cons p M ih =>
+    show get (mask set M ph (set d p ph)) q = get d q
+    rw [ih _ (fun p' hp' => hq p' (by simp [hp'])), h.get_set_other d p q ph (hq p (by simp))]
+
+theorem get_maskWith_disj (h : LensSpec get set Disj overlap) (f : Val → Val) (M : List Path) (d : Doc)
+    (q : Path) (hq : ∀ p ∈ M, Disj p q) : get (maskWith get set f M d) q = get d q := by
+  induction M generalizing d with
+  | nil => rfl
+  | cons p M ih =>
+    show get (maskWith get set f M (match get d p with | some v => set d p (f v) | none => d)) q = get d q
+    rw [ih _ (fun p' hp' => hq p' (by simp [hp']))]
+    split
+    · exact h.get_set_other d p q _ (hq p (by simp))
+    · rfl
+
+/-- **masked_irrelevant**: two documents that agree on every path disjoint from the masked
+paths `M` (pairwise disjoint, present in both) are the SAME document after masking: whatever
+stands at the masked paths — and anything overlapping them — has no influence -/
+theorem masked_irrelevant (h : LensSpec get set Disj overlap) (M : List Path) (ph : Val) (a b : Doc)
+    (hM : M.Pairwise Disj)
+    (hpa : ∀ p ∈ M, get a p ≠ none) (hpb : ∀ p ∈ M, get b p ≠ none)
+    (hag : ∀ q, (∀ p ∈ M, Disj p q) → get a q = get b q) :
+    mask set M ph a = mask set M ph b := by
+  induction M generalizing a b with
+  | nil => exact h.ext a b (fun q => hag q (by simp))
+  | cons p M ih =>
+    show mask set M ph (set a p ph) = mask set M ph (set b p ph)
+    obtain ⟨hp, hM'⟩ := List.pairwise_cons.mp hM
+    apply ih _ _ hM'
+    · intro p' hp'
+      rw [h.get_set_other a p p' ph (hp p' hp')]; exact hpa p' (by simp [hp'])
+    · intro p' hp'
+      rw [h.get_set_other b p p' ph (hp p' hp')]; exact hpb p' (by simp [hp'])
+    · intro q hq
+      by_cases hd : Disj p q
+      · rw [h.get_set_other a p q ph hd, h.get_set_other b p q ph hd]
+        apply hag
+        intro p' hp'
+        rcases List.mem_cons.mp hp' with rfl | hp'
+        · exact hd
+        · exact hq p' hp'
+      · rw [h.get_set_overlap a p q ph hd (hpa p (by simp)),
+          h.get_set_overlap b p q ph hd (hpb p (by simp))]
+
+/-- the same for value-dependent placeholders (`match.Type`, `match.Custom`): the two documents
+may hold different values at the masked paths as long as the placeholder function does not
+tell them apart (e.g. same dynamic type) -/
+theorem masked_irrelevant_with (h : LensSpec get set Disj overlap) (f : Val → Val) (M : List Path)
+    (a b : Doc) (hM : M.Pairwise Disj)
+    (hf : ∀ p ∈ M, ∃ va vb, get a p = some va ∧ get b p = some vb ∧ f va = f vb)
+    (hag : ∀ q, (∀ p ∈ M, Disj p q) → get a q = get b q) :
+    maskWith get set f M a = maskWith get set f M b := by
+  induction M generalizing a b with
+  | nil => exact h.ext a b (fun q => hag q (by simp))
+  | cons p M ih =>
+    obtain ⟨va, vb, hva, hvb, hfe⟩ := hf p (by simp)
+    have ea : maskWith get set f (p :: M) a = maskWith get set f M (set a p (f va)) := by
+      simp only [maskWith, List.foldl_cons, hva]
+    have eb : maskWith get set f (p :: M) b = maskWith get set f M (set b p (f va)) := by
+      simp only [maskWith, List.foldl_cons, hvb, hfe]
+    rw [ea, eb]
+    obtain ⟨hp, hM'⟩ := List.pairwise_cons.mp hM
+    apply ih _ _ hM'
+    · intro p' hp'
+      obtain ⟨va', vb', h1, h2, h3⟩ := hf p' (by simp [hp'])
+      exact ⟨va', vb', by rw [h.get_set_other a p p' _ (hp p' hp'), h1],
+        by rw [h.get_set_other b p p' _ (hp p' hp'), h2], h3⟩
+    · intro q hq
+      by_cases hd : Disj p q
+      · rw [h.get_set_other a p q _ hd, h.get_set_other b p q _ hd]
+        apply hag
+        intro p' hp'
+        rcases List.mem_cons.mp hp' with rfl | hp'
+        · exact hd
+        · exact hq p' hp'
+      · rw [h.get_set_overlap a p q _ hd (by rw [hva]; simp),
+          h.get_set_overlap b p q _ hd (by rw [hvb]; simp)]
+
+/-- **unmasked_relevant**: a difference at a path disjoint from every masked path survives
+masking -/
+theorem unmasked_relevant (h : LensSpec get set Disj overlap) (M : List Path) (ph : Val) (a b : Doc)
+    (q : Path) (hq : ∀ p ∈ M, Disj p q) (hne : get a q ≠ get b q) :
+    mask set M ph a ≠ mask set M ph b := by
+  intro e
+  apply hne
+  rw [← get_mask_disj h M ph a q hq, ← get_mask_disj h M ph b q hq, e]
+
+theorem unmasked_relevant_with (h : LensSpec get set Disj overlap) (f : Val → Val) (M : List Path)
+    (a b : Doc) (q : Path) (hq : ∀ p ∈ M, Disj p q) (hne : get a q ≠ get b q) :
+    maskWith get set f M a ≠ maskWith get set f M b := by
+  intro e
+  apply hne
+  rw [← get_maskWith_disj h f M a q hq, ← get_maskWith_disj h f M b q hq, e]
+
+/-! ## 2. consequences for the snapshot and the verdict -/
+
+/-- identical snapshot text, for any deterministic renderer (`takeJSONSnapshot`, `escape`) -/
+theorem masked_same_snapshot (h : LensSpec get set Disj overlap) (render : Doc → Text)
+    (M : List Path) (ph : Val) (a b : Doc) (hM : M.Pairwise Disj)
+    (hpa : ∀ p ∈ M, get a p ≠ none) (hpb : ∀ p ∈ M, get b p ≠ none)
+    (hag : ∀ q, (∀ p ∈ M, Disj p q) → get a q = get b q) :
+    render (mask set M ph a) = render (mask set M ph b) ∧
+    ∀ name line, prettyDiff (render (mask set M ph a)) (render (mask set M ph b)) name line = [] := by
+  have e := masked_irrelevant h M ph a b hM hpa hpb hag
+  exact ⟨by rw [e], fun name line => by rw [e]; simp [prettyDiff]⟩
+
+/-- **each passes against the other's stored entry**: the entry recorded from `a` replays
+silently for `b` (no event, nothing written) -/
+theorem masked_passes (h : LensSpec get set Disj overlap) (render : Doc → Text)
+    (M : List Path) (ph : Val) (a b : Doc) (hM : M.Pairwise Disj)
+    (hpa : ∀ p ∈ M, get a p ≠ none) (hpb : ∀ p ∈ M, get b p ≠ none)
+    (hag : ∀ q, (∀ p ∈ M, Disj p q) → get a q = get b q)
+    (w : World) (c : Cfg) (p rel id : Text) (line : Nat)
+    (hst : (fsRead w.fs p).bind (getPrev id) = some (render (mask set M ph a), line)) :
+    let r := entryTail w c p rel id (render (mask set M ph b)) .raw
+    r.2.events = [] ∧ r.2.writes = [] ∧ r.1.fs = w.fs := by
+  rw [← (masked_same_snapshot h render M ph a b hM hpa hpb hag).1]
+  have := C14.json_replay w c p rel id _ line hst
+  exact ⟨this.1, this.2.1, this.2.2.1⟩
+
+/-- with an injective renderer a difference at an unmasked path changes the snapshot text, the
+report is non-empty (C13), and — updating not allowed — the test fails with that report -/
+theorem unmasked_reported (h : LensSpec get set Disj overlap) (render : Doc → Text)
+    (hinj : ∀ x y, render x = render y → x = y)
+    (M : List Path) (ph : Val) (a b : Doc) (q : Path) (hq : ∀ p ∈ M, Disj p q)
+    (hne : get a q ≠ get b q) :
+    render (mask set M ph a) ≠ render (mask set M ph b) ∧
+    (∀ name line, prettyDiff (render (mask set M ph a)) (render (mask set M ph b)) name line ≠ []) ∧
+    ∀ (w : World) (c : Cfg) (p rel id : Text) (line : Nat),
+      (fsRead w.fs p).bind (getPrev id) = some (render (mask set M ph a), line) →
+      Generated.shouldUpdate w.env c.update = false →
+      ∃ d, d ≠ [] ∧ (entryTail w c p rel id (render (mask set M ph b)) .raw).2.events = [.error d] := by
+  have hr : render (mask set M ph a) ≠ render (mask set M ph b) :=
+    fun e => unmasked_relevant h M ph a b q hq hne (hinj _ _ e)
+  refine ⟨hr, fun name line he => hr ((C13.report_empty_iff _ _ _ _).mp he), ?_⟩
+  intro w c p rel id line hst hu
+  exact (C14.json_mismatch_reported w c p rel id _ _ line hst (Ne.symm hr) hu).1
+
+end Lens
+
+/-! ## 3. `match.Type`: the placeholder depends on the dynamic type only -/
+
+/-- the dynamic types `gjson.Result.Value()` / goccy's `GetValue` produce -/
+inductive GoType
+  | string | float64 | bool | nil | slice | map | int | uint64
+deriving DecidableEq, Repr
+
+/-- `%T` -/
+def GoType.name : GoType → Text
+  | .string => [115, 116, 114, 105, 110, 103]                                  -- string
+  | .float64 => [102, 108, 111, 97, 116, 54, 52]                               -- float64
+  | .bool => [98, 111, 111, 108]                                               -- bool
+  | .nil => [60, 110, 105, 108, 62]                                            -- <nil>
+  | .slice => [91, 93, 105, 110, 116, 101, 114, 102, 97, 99, 101, 32, 123, 125] -- []interface {}
+  | .map => [109, 97, 112, 91, 115, 116, 114, 105, 110, 103, 93, 105, 110, 116, 101, 114, 102, 97, 99, 101, 32, 123, 125]
+  | .int => [105, 110, 116]                                                    -- int
+  | .uint64 => [117, 105, 110, 116, 54, 52]                                    -- uint64
+
+/-- a decoded value: its dynamic type and whatever else it carries -/
+structure GoValue where
+  tag : GoType
+  payload : Text
+
+/-- `typePlaceholder(value) = fmt.Sprintf("<Type:%T>", value)` (match/type.go:147-149) -/
+def typePlaceholder (v : GoValue) : Text := [60, 84, 121, 112, 101, 58] ++ v.tag.name ++ [62]
+
+/-- **type_placeholder_only_type**: same dynamic type ⇒ same placeholder, whatever the values -/
+theorem type_placeholder_only_type (v v' : GoValue) (h : v.tag = v'.tag) :
+    typePlaceholder v = typePlaceholder v' := by
+  simp [typePlaceholder, h]
+
+/-- … and different types get different placeholders (a type change is visible in the snapshot) -/
+theorem type_placeholder_injective (v v' : GoValue) (h : typePlaceholder v = typePlaceholder v') :
+    v.tag = v'.tag := by
+  have hn : v.tag.name = v'.tag.name := by
+    simpa [typePlaceholder] using h
+  revert hn
+  cases v.tag <;> cases v'.tag <;> simp [GoType.name]
+
+example : typePlaceholder ⟨.string, [97]⟩ = typePlaceholder ⟨.string, [98, 99]⟩ ∧
+    typePlaceholder ⟨.string, [97]⟩ = [60, 84, 121, 112, 101, 58, 115, 116, 114, 105, 110, 103, 62] ∧
+    typePlaceholder ⟨.float64, [49]⟩ ≠ typePlaceholder ⟨.string, [49]⟩ := by decide
+
+/-- `match.Type` through the abstract lens: documents agreeing off the masked paths and holding
+values of the same dynamic type at them are indistinguishable after masking -/
+theorem type_masked_irrelevant {Doc Path : Type} {get : Doc → Path → Option GoValue}
+    {set : Doc → Path → GoValue → Doc} {Disj : Path → Path → Prop}
+    {overlap : Path → Path → GoValue → Option GoValue}
+    (h : LensSpec get set Disj overlap) (M : List Path) (a b : Doc) (hM : M.Pairwise Disj)
+    (hty : ∀ p ∈ M, ∃ va vb, get a p = some va ∧ get b p = some vb ∧ va.tag = vb.tag)
+    (hag : ∀ q, (∀ p ∈ M, Disj p q) → get a q = get b q) :
+    maskWith get set (fun v => ⟨.string, typePlaceholder v⟩) M a =
+    maskWith get set (fun v => ⟨.string, typePlaceholder v⟩) M b := by
+  apply masked_irrelevant_with h _ M a b hM _ hag
+  intro p hp
+  obtain ⟨va, vb, h1, h2, h3⟩ := hty p hp
+  exact ⟨va, vb, h1, h2, by simp [type_placeholder_only_type va vb h3]⟩
+
+/-! ## 4. the contract is satisfiable: flat records -/
+
+namespace Toy
+
+/-- documents: three numbered fields, each absent or a byte string -/
+abbrev Doc := Option Text × Option Text × Option Text
+
+def get (d : Doc) (p : Fin 3) : Option Text :=
+  match p with
+  | 0 => d.1
+  | 1 => d.2.1
+  | 2 => d.2.2
+
+def set (d : Doc) (p : Fin 3) (v : Text) : Doc :=
+  match p with
+  | 0 => (some v, d.2.1, d.2.2)
+  | 1 => (d.1, some v, d.2.2)
+  | 2 => (d.1, d.2.1, some v)
+
+theorem spec : LensSpec get set (fun p q => p ≠ q) (fun _ _ v => some v) where
+  get_set_same d p v _ := by
+    match p with
+    | 0 => rfl
+    | 1 => rfl
+    | 2 => rfl
+  get_set_other d p q v hd := by
+    match p, q with
+    | 0, 0 => exact absurd rfl hd
+    | 1, 1 => exact absurd rfl hd
+    | 2, 2 => exact absurd rfl hd
+    | 0, 1 => rfl
+    | 0, 2 => rfl
+    | 1, 0 => rfl
+    | 1, 2 => rfl
+    | 2, 0 => rfl
+    | 2, 1 => rfl
+  get_set_overlap d p q v hd _ := by
+    have : p = q := Classical.byContradiction hd
+    subst this
+    match p with
+    | 0 => rfl
+    | 1 => rfl
+    | 2 => rfl
+  ext a b hab := by
+    obtain ⟨a0, a1, a2⟩ := a
+    obtain ⟨b0, b1, b2⟩ := b
+    have h0 := hab 0
+    have h1 := hab 1
+    have h2 := hab 2
+    simp only [get] at h0 h1 h2
+    simp [h0, h1, h2]
+
+/-- field 1 masked: ("u", "t1", "x") and ("u", "t2", "x") mask to the same document; a change
+of field 2 survives -/
+example :
+    mask set [1] [63] (some [117], some [116, 49], some [120]) =
+      mask set [1] [63] (some [117], some [116, 50], some [120]) ∧
+    mask set [1] [63] (some [117], some [116, 49], some [120]) = (some [117], some [63], some [120]) ∧
+    mask set [1] [63] (some [117], some [116, 49], some [120]) ≠
+      mask set [1] [63] (some [117], some [116, 49], some [121]) := by decide
+
+example : mask set [1] [63] (some [117], some [116, 49], some [120]) =
+    mask set [1] [63] (some [117], some [116, 50], some [120]) :=
+  masked_irrelevant spec [1] [63] _ _ (by simp) (by decide) (by decide)
+    (fun q hq => by
+      have : (1 : Fin 3) ≠ q := hq 1 (by simp)
+      match q with
+      | 0 => rfl
+      | 1 => exact absurd rfl this
+      | 2 => rfl)
+
+end Toy
+
 end GoSnaps.C16
